@@ -1083,7 +1083,9 @@ impl World {
         let snap_stream = if streams.len() == 1 { streams.iter().next().copied() } else { None };
         // ---- C12: retained snapshot / new stream only
         if let Some(f) = &self.frozen {
-            let same = matches == f.matches && item_count == f.item_count && pat == f.pattern;
+            // "the snapshot is still the retained one": same summary AND (where it lists anything) items of the same stream - a run
+            // over the new stream may produce the very same counts, indices and scores
+            let same = matches == f.matches && item_count == f.item_count && pat == f.pattern && (matches.is_empty() || f.stream.is_none() || snap_stream == f.stream);
             if same {
                 // C11: the retained snapshot is a handle that reaches its items: as long as it lists them they are alive
                 if let Some(&id) = f.ids.iter().find(|&&id| self.reg.drops[id as usize].load(Ordering::Relaxed) > 0) {
@@ -1129,7 +1131,10 @@ impl World {
                 }
             }
         }
-        let moved_on = self.frozen.as_ref().map_or(false, |f| !(matches == f.matches && item_count == f.item_count && pat == f.pattern));
+        let moved_on = self
+            .frozen
+            .as_ref()
+            .map_or(false, |f| !(matches == f.matches && item_count == f.item_count && pat == f.pattern && (matches.is_empty() || f.stream.is_none() || snap_stream == f.stream)));
         if moved_on || !st.running {
             self.frozen = None;
         }
